@@ -10,6 +10,9 @@ import (
 	"errors"
 	"fmt"
 	"io"
+	"os"
+	"os/exec"
+	"path/filepath"
 	"sort"
 	"strings"
 	"testing/iotest"
@@ -185,6 +188,41 @@ func c12Behaviour(c *Ctx, idx, bi int, cr *CaseResult) bool {
 	return true
 }
 
+// c12CrossProcess: see child.go (grbstore / grbextend); false = violation.
+func c12CrossProcess(cr *CaseResult) bool {
+	dir, err := os.MkdirTemp(c20WorkDir(), "x")
+	if err != nil {
+		cr.inconclusive("no scratch directory for the cross-process round trip")
+		return true
+	}
+	defer os.RemoveAll(dir)
+	file := filepath.Join(dir, "kb.grb")
+	run := func(mode string) (string, error) {
+		out, err := exec.Command(os.Args[0], "child", mode, file).CombinedOutput()
+		for _, l := range strings.Split(string(out), "\n") {
+			if strings.HasPrefix(l, "RESULT ") {
+				return strings.TrimPrefix(l, "RESULT "), err
+			}
+		}
+		return trunc(string(out), 300), err
+	}
+	r1, err1 := run("grbstore")
+	if err1 != nil || !strings.HasPrefix(r1, "stored") {
+		cr.inconclusive("the storing child process failed: " + trunc(r1, 80))
+		return true
+	}
+	r2, err2 := run("grbextend")
+	cr.Evals++
+	want := "ran A=3 B=2 C=1 err=<nil> panic=<nil>"
+	if err2 != nil || r2 != want {
+		cr.violate(fmt.Sprintf("a knowledge base stored by one process, loaded by another process that then builds one more rule into it: %s (exit %v), expected %q", r2, err2, want),
+			map[string]interface{}{"stored_rules": c12XText, "rule_built_after_loading": c12XMore})
+		return false
+	}
+	cr.inc("cross_process_round_trips")
+	return true
+}
+
 // c12Big stores, loads and runs a rule set with very large fields; false = violation.
 func c12Big(c *Ctx, idx int, cr *CaseResult) bool {
 	r := c.Rng(idx, 9000)
@@ -346,6 +384,13 @@ func runC12Case(c *Ctx, idx int) *CaseResult {
 	// (no length a valid rule set can reach may be mistaken for a damaged length prefix)
 	if idx%4 == 0 {
 		if !c12Big(c, idx, cr) {
+			return cr
+		}
+	}
+	// ---- (a3) one process stores, another process (that built nothing before) loads, builds
+	// one more rule into the loaded knowledge base, creates an instance and runs it
+	if idx%4 == 1 {
+		if !c12CrossProcess(cr) {
 			return cr
 		}
 	}
